@@ -128,6 +128,27 @@ func main() {
 		os.Exit(2)
 	}
 	switch os.Args[1] {
+	case "cases":
+		// every stated case on the implementation as it is now: "<property> <id> pass|FAIL <what fails>"
+		for _, pr := range []string{"C04", "C05", "C07", "C08", "C10", "C11", "C12", "C13", "C15", "C17", "C19"} {
+			ctx := &Ctx{Prop: pr, Tier: "quick", Seed: 1, Rng: NewRng(1), Cov: NewCover(), models: map[string]*ModelProc{}, start: time.Now()}
+			runStatedCases(ctx)
+			failed := map[string]string{}
+			for _, v := range ctx.Violations {
+				failed[strings.TrimPrefix(v.Signature, "case:")] = v.What
+			}
+			for _, c := range statedCases {
+				if c.prop != pr {
+					continue
+				}
+				if w, ok := failed[c.id]; ok {
+					fmt.Printf("%s %s FAIL %s\n", pr, c.id, trunc(w, 300))
+				} else {
+					fmt.Printf("%s %s pass\n", pr, c.id)
+				}
+			}
+		}
+		return
 	case "worker":
 		workerMain()
 	case "setup":
@@ -277,6 +298,7 @@ func runGuarded(ctx *Ctx, pc *propCheck) {
 		}
 	}()
 	pc.run(ctx)
+	runStatedCases(ctx)
 }
 
 // verdict matches violations against the known findings, writes replay files
